@@ -137,6 +137,40 @@ def step(cls, k=3, **sel):
                 c = gl.coherent(comp)
                 if c:
                     return f"composed graph incoherent: {c}"
+            if present and name == "list":
+                # the composition is edited (single entries deleted, an attribute set); the pieces must be unaffected: composing them again still gives the graph
+                try:
+                    comp.set_atom_attribute(present[0], "mark", "edited")
+                    if cname == "SCRG":
+                        for a, cd in list(comp.atom_stereo_changes.items()):
+                            for ch in [c_ for c_, d_ in cd.items() if d_ is not None][:1]:
+                                comp.delete_atom_stereo_change(a, ch)
+                        for b, cd in list(comp.bond_stereo_changes.items()):
+                            for ch in [c_ for c_, d_ in cd.items() if d_ is not None][:1]:
+                                comp.delete_bond_stereo_change(b, ch)
+                    if gl.is_stereo(cname):
+                        for a in list(comp.atom_stereo)[:1]:
+                            comp.delete_atom_stereo(a)
+                    again = type(g).compose(list(pieces))
+                except Exception as e:
+                    return f"editing the composition / composing the pieces again raised {type(e).__name__}: {e}"
+                d = gl.diff(gl.snap(again), ms)
+                if d:
+                    return f"after editing the composed graph, composing the same component subgraphs again != graph: {d}"
+    # ---- components of a graph that was relabelled in place (after components had been asked for once) --------------
+    if present:
+        g = gl.build(spec)
+        g.connected_components()
+        ren = {a: (a + 10 if isinstance(a, int) else a) for a in present}
+        r = g.relabel_atoms(dict(ren), copy=False)
+        g = g if r is None else r
+        comps2 = g.connected_components()
+        exp2 = [{ren[a] for a in c} for c in exp]
+        if sorted(map(sorted, comps2)) != sorted(map(sorted, exp2)):
+            return f"connected_components after relabel_atoms({ren}, copy=False): {comps2}, expected {exp2}"
+        for a in g.atoms:
+            if not any(a in c and set(g.node_connected_component(a)) == set(c) for c in comps2):
+                return f"node_connected_component({a}) disagrees with connected_components {comps2} after an in-place relabel"
     # ---- overlapping covers: labelled union, later wins -----------------------------------------------
     T = [a for a in present if a not in S or a == (S[0] if S else None)]   # complement plus one shared atom
     for order in ((S, T), (T, S)):
